@@ -15,9 +15,9 @@ PROPS["C15"] = dict(
          "2^64-1 and one more, exactly what is held and one more; ~8% malformed (blank/unknown ids, bad addresses, amount 0); "
          "non-trivial = on some class a non-owner attempted mint/edit/hand-over and its owner succeeded with one; "
          "distinct = by hash of the history",
-    codes={1: "mt/sum-of-balances-differs-from-supply", 2: "mt/transfer-not-exact", 3: "mt/burn-not-exact",
-           4: "mt/mint-not-exact-or-wrapped", 5: "mt/authority", 6: "mt/id-reused-or-object-lost",
-           7: "mt/step-changed-what-it-must-not"},
+    codes={1: "mt.sum-of-balances-differs-from-supply", 2: "mt.transfer-not-exact", 3: "mt.burn-not-exact",
+           4: "mt.mint-not-exact-or-wrapped", 5: "mt.authority", 6: "mt.id-reused-or-object-lost",
+           7: "mt.step-changed-what-it-must-not"},
     explain={1: "for some token the holders' balances do not add up to the recorded supply (or a holder of a non-existent token, or a supply view disagrees)",
              2: "a successful transfer moved something other than exactly the amount from sender to recipient, or the sender did not hold it",
              3: "a successful burn did not reduce the burner's balance and the supply by exactly the amount, or the burner did not hold it",
